@@ -13,7 +13,9 @@ RULE = ("Every decoder call on untrusted input is recorded as one event (child p
         "HashmapE (several encodings of one value); TL: TlSem's total decoder returns the same value and unread tail. Inputs: C->S per exported "
         "TL-B type {valid, random trees, one-mutation encodings (bit flip, truncation of root / inner cell, reference removed / duplicated, cell "
         "replaced by pruned / library / unknown exotic, extension, grafted bomb), value of another type, expansion bombs (4^9 and 2^17 unfoldings, "
-        "measured in full), exotic and tiny roots}; per TL type and function {valid, truncated at every offset, every length prefix -> ff / "
+        "measured in full), exotic and tiny roots}; large valid encodings laid out by the driver from the TL-B definitions (dictionaries of 24k-64k leaves "
+        "for several key / value widths incl. HashmapAugE, a 32k-leaf BinTree, SnakeData chains and VmStacks 1000 cells deep; thorough: five sizes and one "
+        "change far from the root) so that work growing with the square of the input breaks the budget; per TL type and function {valid, truncated at every offset, every length prefix -> ff / "
         "feffffff / fe000001, every vector count -> ffffffff / 7fffffff / 2^24 / 2^16 / +1, constructor id, bit flips, trailing, random}; helpers: "
         "VmStack.UnmarshalTL, code.ParseContractMethods, abi message decoders, ten liteapi.Client methods against a scripted lite server (parallel "
         "lists that disagree, bags with 0 / 2 roots, truncated / mistagged / error answers, malformed answer frames), and in-package decodeLength, "
@@ -239,6 +241,13 @@ def key_of(e, note, b=None):
         if guard == "bytes_len" and what in ("crash", "alloc", "timeout", "time"):
             return "C08:tl.bytes:len_alloc"
         return "C08:tl:%s:%s:%s" % (e.get("ty"), guard, what)
+    if kind == "Decode" and cls.startswith("big_"):
+        # large inputs: the call site is the generic codec (Hashmap, HashmapAug, BinTree, SnakeData, VmStack), whatever
+        # its parameters; work out of proportion shows as allocation, processor time or a call the watchdog had to stop,
+        # often all three for one cause: one key ("cost") per call site
+        g = re.sub(r"\[.*$", "", e.get("type", "?")).replace("tlb.", "")
+        g = {"HashmapE": "Hashmap", "HashmapAugE": "HashmapAug"}.get(g, g)
+        return "C08:tlb:%s:%s" % (g, "cost" if what in ("timeout", "time", "alloc") else what)
     if kind in ("Decode", "Bag"):
         return "C08:tlb:%s:%s:%s" % (e.get("type"), re.sub(r"^(specgen|mut):", "", cls), what)
     site = re.sub(r"^(liteapi|code|liteclient)\.", "", e.get("site", "?"))
@@ -327,6 +336,7 @@ def run(ck):
         jobs.append(Job(ck, "tl%02d" % i, "tl", i, PARTS_TL, rest=["schema=" + schema]))
     for i in range(3):
         jobs.append(Job(ck, "helpers%d" % i, "helpers", i, 3, infile=mp, rest=["schema=" + schema, "abiops=" + ops]))
+    jobs.append(Job(ck, "big0", "big", 0, 1))
     t0 = time.time()
     results = vlib.parallel(lambda j: inpkg_job(ck) if j == "inpkg" else j.run(), ["inpkg"] + jobs, n=vlib.NCPU)
     jobs = results
@@ -346,7 +356,7 @@ def run(ck):
         js = [j for j in jobs if j.part == part]
         return [js[k:k + size] for k in range(0, len(js), size)]
     groups = (grouped("tlb", 1 if ck.thorough else 2) + grouped("bags", 2) + grouped("tl", 4 if ck.thorough else 8)
-              + [[j for j in jobs if j.part in ("helpers", "inpkg")]])
+              + [[j for j in jobs if j.part in ("helpers", "inpkg", "big")]])
     t0 = time.time()
     def val(g):
         name = g[0].name if len(g) == 1 else "%s_%s" % (g[0].name, g[-1].name)
@@ -414,6 +424,14 @@ def run(ck):
             "liteclient.decodeLength", "liteclient.processQueryAnswer", "liteclient.ParsePacket"}
     if need - set(sites):
         raise Infra("helper sites not driven: %s" % sorted(need - set(sites)))
+    # a large valid input whose decoding stops early says nothing about proportionality
+    big = [e for j in jobs if j.part == "big" for e in vlib.read_ndjson(j.trace) if e.get("k") == "Decode"]
+    bigok = [e for e in big if e["class"] == "big_valid" and e["res"] == "ok" and e.get("nres") == e.get("n")]
+    ck.extra["large_inputs"] = {"driven": len(big) + sum(1 for j in jobs if j.part == "big" for e in vlib.read_ndjson(j.trace) if e.get("k") in ("Timeout", "Crash", "Panic")),
+                                "valid_decoded_in_full": len(bigok), "largest_cells": max([e["cells"] for e in big] or [0]),
+                                "max_cpu_ms": max([e["ms"] for e in big] or [0])}
+    if not any(e["type"].startswith("tlb.HashmapE[") for e in bigok) and not any(c[1].get("class", "").startswith("big_") for c in cand):
+        raise Infra("no large dictionary was decoded in full: the large-input part is vacuous")
     if stats["values_judged"] < 1000:
         raise Infra("only %d returned values were judged against the schema" % stats["values_judged"])
 
